@@ -2,6 +2,7 @@
 # usage: run_seeded.sh [SEED-ID ...]  — applies each seeded change to /repo, runs the property's quick check, undoes the change.
 cd /verif
 IDS="$@"; [ -z "$IDS" ] && IDS=$(ls seeded)
+if [ -n "$(git -C /repo status --porcelain)" ]; then echo "refusing: /repo has uncommitted changes (commit contract files first)"; exit 2; fi
 for id in $IDS; do
   P=${id%%-*}
   if ! python3 -c "import json,sys; m=json.load(open('/verif/MANIFEST.json')); sys.exit(0 if any(c['property_id']=='$P' for c in m['checks']) else 1)"; then
